@@ -19,6 +19,7 @@ import (
 	"github.com/Fantom-foundation/lachesis-base/kvdb/memorydb"
 	"github.com/Fantom-foundation/lachesis-base/lachesis"
 	"github.com/Fantom-foundation/lachesis-base/utils/adapters"
+	"github.com/Fantom-foundation/lachesis-base/vecengine"
 	"github.com/Fantom-foundation/lachesis-base/vecfc"
 )
 
@@ -81,7 +82,7 @@ type Inst struct {
 	// listener policy of the application: mode 0 = ApplyEvent for every block, 1 = from the ListenN-th block of
 	// the instance's life on, 2 = for every other block (odd ones)
 	ListenMode, ListenN int
-	Flags               int // 1: nil EndBlock on non-sealing blocks; 2: one-byte HighestBefore/LowestAfter caches
+	Flags               int // 1: nil EndBlock on non-sealing blocks; 2: one-byte HighestBefore/LowestAfter caches; 4: custom engine, no OnDropNotFlushed, no vector caches
 	totalBlocks         int
 	lastCrit string
 	keepIndex bool // the next mkLachesis reuses the application's DagIndexer object
@@ -191,9 +192,38 @@ func (in *Inst) open() error {
 	return nil
 }
 
+// newIndex builds the application's DAG index.  Flags&4: an index over an externally constructed
+// vecengine.Engine (vecfc.NewIndexWithEngine) with the vector caches disabled, so that the OPTIONAL
+// Callbacks.OnDropNotFlushed (whose only job is to purge those caches) is legitimately left nil.
+func (in *Inst) newIndex() *vecfc.Index {
+	if in.Flags&4 == 0 {
+		return vecfc.NewIndex(in.crit, in.idxCfg())
+	}
+	var fc *vecfc.Index
+	engine := vecengine.NewIndex(in.crit, vecengine.Callbacks{
+		GetHighestBefore: func(id hash.Event) vecengine.HighestBeforeI { return fc.GetHighestBefore(id) },
+		GetLowestAfter:   func(id hash.Event) vecengine.LowestAfterI { return fc.GetLowestAfter(id) },
+		SetHighestBefore: func(id hash.Event, b vecengine.HighestBeforeI) {
+			fc.SetHighestBefore(id, b.(*vecfc.HighestBeforeSeq))
+		},
+		SetLowestAfter: func(id hash.Event, b vecengine.LowestAfterI) {
+			fc.SetLowestAfter(id, b.(*vecfc.LowestAfterSeq))
+		},
+		NewHighestBefore: func(size idx.Validator) vecengine.HighestBeforeI { return vecfc.NewHighestBeforeSeq(size) },
+		NewLowestAfter:   func(size idx.Validator) vecengine.LowestAfterI { return vecfc.NewLowestAfterSeq(size) },
+		OnDbReset:        func(db kvdb.Store) { fc.GetEngineCallbacks().OnDbReset(db) },
+		// OnDropNotFlushed: nil
+	})
+	c := in.idxCfg()
+	c.Caches.HighestBeforeSeqSize = 0
+	c.Caches.LowestAfterSeqSize = 0
+	fc = vecfc.NewIndexWithEngine(in.crit, c, engine)
+	return fc
+}
+
 func (in *Inst) mkLachesis() {
 	if !in.keepIndex || in.dagIdx == nil {
-		in.dagIdx = &adapters.VectorToDagIndexer{Index: vecfc.NewIndex(in.crit, in.idxCfg())}
+		in.dagIdx = &adapters.VectorToDagIndexer{Index: in.newIndex()}
 	}
 	in.Lch = abft.NewIndexedLachesis(in.store, in.events, in.dagIdx, in.crit, abft.LiteConfig())
 }
